@@ -518,3 +518,74 @@ def gen_logical(rng, depth):
 
 def canon_ast(x):
     return json.loads(json.dumps(x))
+
+
+# ---- documented extensions (C13) ------------------------------------------------------
+CTX = {"k": 1, "s": "a", "names": ["a", "b", "0"], "o": {"a": 1, "b": [1, 2]}, "t": True, "n": None}
+
+
+def gen_ext_comparable(rng, depth):
+    r = rng.random()
+    if r < 0.15:
+        return "key"
+    if r < 0.3:
+        segs = gen_singular_segs(rng, ["k", "s", "names", "o", "a", "b", "t", "n"], 2)
+        return ["ctx"] + segs
+    if r < 0.35:
+        return "undef"
+    if r < 0.4:
+        return "nil"
+    return gen_comparable(rng, depth)
+
+
+def gen_ext_logical(rng, depth):
+    r = rng.random()
+    if depth <= 0 or r < 0.45:
+        r2 = rng.random()
+        if r2 < 0.2:
+            rhs = (["list"] + [["lit", rng.choice(LITERALS)] for _ in range(rng.randint(0, 3))]) if rng.random() < 0.5 \
+                else rng.choice([["ctx", ["sel", ["name", "names"]]], ["ctx", ["sel", ["name", "o"]]], ["self", ["sel", ["name", "a"]]],
+                                 ["ctx", ["sel", ["name", "s"]]], ["lit", "abc"]])
+            return ["op", "in", gen_ext_comparable(rng, 0), rhs]
+        if r2 < 0.35:
+            lhs = rng.choice([["ctx", ["sel", ["name", "names"]]], ["ctx", ["sel", ["name", "o"]]], ["self", ["sel", ["name", "a"]]],
+                              ["self"], ["lit", "abc"]])
+            return ["op", "contains", lhs, gen_ext_comparable(rng, 0)]
+        if r2 < 0.5:
+            return ["op", "=~", gen_ext_comparable(rng, 0), ["re", rng.choice(PATTERNS), rng.choice(["", "", "i", "s", "is"])]]
+        if r2 < 0.6:
+            return ["op", "<>", gen_ext_comparable(rng, 0), gen_ext_comparable(rng, 0)]
+        if r2 < 0.75:
+            return ["op", rng.choice(["==", "!="]), gen_ext_comparable(rng, 0), rng.choice(["undef", "nil", ["lit", True], ["lit", False]])]
+        if r2 < 0.85:
+            return ["ctx"] + gen_singular_segs(rng, ["k", "s", "names", "o", "a", "zz"], 2)
+        return gen_logical(rng, 0)
+    if r < 0.6:
+        return ["not", gen_ext_logical(rng, depth - 1)]
+    return ["op", rng.choice(["&&", "||"]), gen_ext_logical(rng, depth - 1), gen_ext_logical(rng, depth - 1)]
+
+
+def gen_ext_segs_for_doc(rng, doc, maxlen=3):
+    def extra():
+        r = rng.random()
+        if r < 0.3:
+            return "keys"
+        return ["filter", gen_ext_logical(rng, rng.randint(0, 2))]
+    segs = gen_segs_for_doc(rng, doc, maxlen, extra)
+    # the keys selector also has a shorthand form  .~
+    out = []
+    for g in segs:
+        if isinstance(g, list) and g[0] == "list" and len(g) == 2 and g[1] == "keys" and rng.random() < 0.5:
+            out.append(["sel", "keys"])
+        else:
+            out.append(g)
+    return out
+
+
+def gen_ext_query(rng, doc):
+    first = {"fake": rng.random() < 0.15, "segs": gen_ext_segs_for_doc(rng, doc, 3)}
+    rest = []
+    if rng.random() < 0.3:
+        for _ in range(rng.randint(1, 3)):
+            rest.append([rng.choice(["union", "inter"]), {"fake": rng.random() < 0.1, "segs": gen_ext_segs_for_doc(rng, doc, 2)}])
+    return {"first": first, "rest": rest}
